@@ -219,7 +219,7 @@ CHEAP_TAIL = ['un', 'bin', 'binc', 'neg', 'get']
 
 SINGLE = ['un', 'kink', 'special', 'unp', 'bin', 'bcast', 'binc', 'pow', 'neg', 'get', 'T', 'reshape', 'buf', 'set', 'rmw', 'sum', 'prod', 'trace',
           'dot', 'dotc', 'outer', 'inv', 'solve', 'det', 'logdet', 'qr', 'chol', 'eigh', 'svd', 'lu', 'fft', 'tile', 'diag',
-          'symvec', 'vecsym', 'cplx']
+          'symvec', 'vecsym', 'cplx', 'bufdet']
 
 
 @st.composite
